@@ -719,7 +719,8 @@ def render_file(model, fixed=False, extra_args=None, keep_checks=False):
     if mod:
         kw = (lambda w: w.upper()) if mod.get('upper_kw') else (lambda w: w)
         rc.lines.append(f'{kw("module")} {mod["name"]}')
-        rc.lines.append('  ' + kw('implicit none'))
+        if mod.get('implicit_none', True):
+            rc.lines.append('  ' + kw('implicit none'))
         rc.lines.append(kw('contains'))
         for r in mod['routines']:
             r_routine(r, rc, 2, extra_args.get(r['name'], 0))
@@ -854,10 +855,16 @@ def lint_file(draw, idx, rot=None):
         prof = {'maxlen': 3, 'members': True, 'functions': True, 'ubound': True}
         f['model'] = draw(file_model(stem, prof))
         # further rule triggers: missing IMPLICIT NONE, more dummy arguments than MaxDummyArgsRule allows
-        f['no_implicit_none'] = draw(st.integers(0, 3)) == 0
+        if rot is None:
+            f['no_implicit_none'] = draw(st.integers(0, 3)) == 0
+        else:
+            f['no_implicit_none'] = (idx + rot + draw(st.integers(0, 3))) % 4 < 2
         f['extra_args'] = draw(st.sampled_from([0, 0, 0, 60]))
     elif kind == 'broken':
-        f['broken'] = draw(st.sampled_from(BROKEN_KINDS))
+        if rot is None:
+            f['broken'] = draw(st.sampled_from(BROKEN_KINDS))
+        else:
+            f['broken'] = BROKEN_KINDS[(idx + rot + draw(st.integers(0, len(BROKEN_KINDS) - 1))) % len(BROKEN_KINDS)]
     return f
 
 
@@ -872,6 +879,8 @@ def render_lint_file(f):
     routines = all_routines(model)
     if f.get('no_implicit_none'):
         routines[0][0]['implicit_none'] = False
+        if model.get('module'):
+            model['module']['implicit_none'] = False      # (a module-level IMPLICIT NONE would cover the routine)
     if f.get('extra_args'):
         extra[routines[-1][0]['name']] = f['extra_args']
     text, _ = render_file(model, extra_args=extra)
